@@ -395,6 +395,9 @@ func (c *Ctx) funcValueTargets(v ssa.Value, depth int) []*ssa.Function {
 	case *ssa.Phi:
 		var out []*ssa.Function
 		for _, e := range x.Edges {
+			if e == ssa.Value(x) {
+				continue // carried round a loop unchanged
+			}
 			t := c.funcValueTargets(e, depth+1)
 			if t == nil {
 				return nil
